@@ -344,6 +344,92 @@ func init() {
 	//  (O2) an application write made before the step survives, unless the shadow holds a version
 	//       that wins last-writer-wins against (detection time, that write);
 	//  (O3) entries the application did not touch and the snapshot does not mention keep their bytes.
+	// prop.c04.load <id> <snapshot> <lastSynced> <now> <cutoff>: with the sweeper configured, a
+	// deletion marker older than the load cut-off is not created on an instance that has no entry
+	// for the key, and one younger than it is (markers travel). Timestamps below 10^17 are
+	// decades old; symbolic ones are "now".
+	implOps["prop.c04.load"] = func(a []string) string {
+		i := insts[a[0]]
+		before, err := imageOf(i)
+		if err != nil {
+			return "err image"
+		}
+		snap, err := parseSnapArg(a[1])
+		if err != nil {
+			return "err snapshot-arg"
+		}
+		w := beginWindow(u64(a[3]))
+		_, _, lerr := i.s.LoadOnce(context.Background(), i.env, "remote", snapshot.Update{Snapshot: snap, NameInfo: snapshot.NameInfo{Kind: snapshot.KindSnapshot}}, header.TxnID(relTxn(i, a[2])))
+		w.end()
+		if lerr != nil {
+			return "ok refused"
+		}
+		after, err := imageOf(i)
+		if err != nil {
+			return "err image"
+		}
+		refused, stored := 0, 0
+		for _, d := range snap.Databases {
+			if isPrivateName(d.Name()) {
+				continue
+			}
+			target := d.Name()
+			if !i.native {
+				target = syncer.SyncDBIShadowPrefix + d.Name()
+			}
+			ents, err := dbiEntries(d)
+			if err != nil {
+				return "err snapshot-arg"
+			}
+			// a key that occurs more than once among the messages for this DBI is left alone
+			count := map[string]int{}
+			for _, d2 := range snap.Databases {
+				if d2.Name() != d.Name() {
+					continue
+				}
+				e2, err := dbiEntries(d2)
+				if err != nil {
+					return "err snapshot-arg"
+				}
+				for _, e := range e2 {
+					count[string(e.Key)]++
+				}
+			}
+			has := func(img *envImage, k []byte) bool {
+				di := img.dbis[target]
+				if di == nil {
+					return false
+				}
+				for _, p := range di.kvs {
+					if bytes.Equal(p.k, k) {
+						return true
+					}
+				}
+				return false
+			}
+			for _, e := range ents {
+				del := e.Flags&1 != 0 || (len(e.Value) == 0 && snap.FormatVersion < 2)
+				if !del || count[string(e.Key)] != 1 || has(before, e.Key) {
+					continue
+				}
+				if d.Transform() != "" {
+					continue // shadow keys are encoded (C20)
+				}
+				old := e.TimestampNano < 100000000000000000
+				switch {
+				case old && u64(a[4]) != 0 && hasMarker(after, target, e.Key):
+					return fmt.Sprintf("FAIL stale-deletion-marker-re-created dbi=%s key=%s ts=%d", target, hx(e.Key), e.TimestampNano)
+				case old && u64(a[4]) != 0:
+					refused++
+				case !has(after, e.Key):
+					return fmt.Sprintf("FAIL deletion-marker-not-stored dbi=%s key=%s", target, hx(e.Key))
+				default:
+					stored++
+				}
+			}
+		}
+		return fmt.Sprintf("ok refused=%d stored=%d", refused, stored)
+	}
 	implOps["prop.c11.load"] = func(a []string) string {
 		i := insts[a[0]]
 		if i.native {
@@ -507,6 +593,21 @@ func init() {
 		}
 		return "ok mirrored"
 	}
+}
+
+// hasMarker: the DBI holds a deletion marker under the key
+func hasMarker(img *envImage, target string, k []byte) bool {
+	di := img.dbis[target]
+	if di == nil {
+		return false
+	}
+	for _, p := range di.kvs {
+		if bytes.Equal(p.k, k) {
+			v, err := decodeStored(p.v)
+			return err == nil && v.del
+		}
+	}
+	return false
 }
 
 func shadowVer(sh *dbiImage, k []byte) (ver, bool) {
